@@ -118,7 +118,11 @@ class Conformer(Species):
     @property
     def coordinates(self) -> Optional[Coordinates]:
         """Coordinates of this conformer"""
-        return self._coordinates
+        if self._coordinates is None:
+            return None
+
+        # A copy, so in-place edits cannot bypass the setter
+        return self._coordinates.copy()
 
     @coordinates.setter
     def coordinates(self, value: np.ndarray):
